@@ -57,35 +57,144 @@ theorem fns_nil_iff (d : Decision) : d.fns = [] ↔ d.add = false ∧ d.removeUn
   rcases d with ⟨a, r, l, h, dl⟩
   cases a <;> cases r <;> cases l <;> simp [Decision.fns]
 
+
+/-- Every step either stores a new version (`rv + 1`) or leaves everything an event shows alone. -/
+theorem step_frame {own : String} {s b : State} {l : Label} (hs : step own s l = some b) :
+    (b.rv = s.rv ∧ snap b = snap s) ∨ b.rv = s.rv + 1 := by
+  unfold step at hs
+  split at hs
+  · cases hs
+  cases l with
+  | decide e v =>
+    simp only [stepDecide] at hs
+    split at hs
+    · cases hs
+    · split at hs <;> cases hs
+      exact Or.inl ⟨rfl, rfl⟩
+  | mergePatch =>
+    simp only [stepMerge] at hs
+    split at hs
+    · next p _ =>
+      split at hs
+      · cases hs
+        cases hmc : p.mergeChanges
+        · left; simp [snap]
+        · right; simp
+      · cases hs
+    · cases hs
+  | jsonPatch f =>
+    simp only [stepJson] at hs
+    split at hs
+    · split at hs
+      · cases hs
+      · split at hs
+        · cases hs; exact Or.inl ⟨rfl, rfl⟩
+        · split at hs
+          · cases hs; exact Or.inl ⟨rfl, rfl⟩
+          · cases hs; exact Or.inr rfl
+    · cases hs
+  | editFins l' =>
+    simp only [stepEditFins] at hs
+    split at hs
+    · cases hs
+    · split at hs
+      · cases hs; exact Or.inl ⟨rfl, rfl⟩
+      · cases hs; exact Or.inr rfl
+  | mark =>
+    simp only [stepMark] at hs
+    split at hs
+    · cases hs; exact Or.inl ⟨rfl, rfl⟩
+    · split at hs
+      · cases hs; exact Or.inl ⟨rfl, rfl⟩
+      · cases hs; exact Or.inr rfl
+  | toggleDel => cases hs; exact Or.inr rfl
+  | toggleDmn => cases hs; exact Or.inr rfl
+  | write d m => cases hs; exact Or.inr rfl
+  | handlerFinishes => cases hs; exact Or.inl ⟨rfl, rfl⟩
+  | daemonExits o =>
+    simp only at hs
+    split at hs
+    · cases hs; exact Or.inl ⟨rfl, rfl⟩
+    · cases hs
+  | restart => cases hs; exact Or.inl ⟨rfl, rfl⟩
+
+def QOk (q : List Snap) (b : State) : Prop :=
+  (∀ v ∈ q, v.rv ≤ b.rv ∧ (v.rv = b.rv → v = snap b)) ∧
+  (q ≠ [] → ∃ l, q.getLast? = some l ∧ l.rv = b.rv)
+
+theorem qok_same {q : List Snap} {a b : State} (h : QOk q a) (hrv : b.rv = a.rv) (hsn : snap b = snap a) : QOk q b := by
+  obtain ⟨h1, h2⟩ := h
+  refine ⟨fun v hv => ?_, fun hne => ?_⟩
+  · rw [hrv, hsn]; exact h1 v hv
+  · rw [hrv]; exact h2 hne
+
+theorem qok_push {q : List Snap} {a b : State} (h : QOk q a) (hrv : b.rv = a.rv + 1) : QOk (q ++ [snap b]) b := by
+  obtain ⟨h1, _⟩ := h
+  refine ⟨fun v hv => ?_, fun _ => ⟨snap b, by simp, rfl⟩⟩
+  rcases List.mem_append.mp hv with hv | hv
+  · have := (h1 v hv).1
+    exact ⟨by omega, fun he => by omega⟩
+  · simp only [List.mem_singleton] at hv
+    subst hv
+    exact ⟨Nat.le_refl _, fun _ => rfl⟩
+
+theorem qok_enqueue {own : String} {s : LState} {b : State} {l : Label} (h : QOk s.queue s.base)
+    (hs : step own s.base l = some b) : QOk (enqueue s b) b := by
+  unfold enqueue
+  rcases step_frame hs with ⟨hrv, hsn⟩ | hrv
+  · simp only [hrv, bne_self_eq_false, Bool.false_eq_true, if_false]
+    exact qok_same h hrv hsn
+  · have : (b.rv != s.base.rv) = true := by simp [hrv]
+    simp only [this, if_true]
+    exact qok_push h hrv
+
+theorem enqueue_ne_nil_of_ne {s : LState} {b : State} (h : s.queue ≠ []) : enqueue s b ≠ [] := by
+  unfold enqueue; split <;> simp [h]
+
+theorem enqueue_ne_nil_of_bump {s : LState} {b : State} (h : b.rv ≠ s.base.rv) : enqueue s b ≠ [] := by
+  unfold enqueue; simp [h]
+
 structure LInv (own : String) (s : LState) : Prop where
   memNil : s.base.mem = []
-  j1 : s.base.pending = none → Waiting own s.base → 1 ≤ s.events ∨ s.sleeping = true
-  j3 : ∀ p, s.base.pending = some p → p.merge = false → s.cycMerge = true → s.cycChanges = true → 1 ≤ s.events
-  j4 : ∀ p, s.base.pending = some p → (Fn.block ∈ p.fns → own ∉ p.view) ∧ (Fn.allow ∈ p.fns → own ∈ p.view)
-  j5 : ∀ p, s.base.pending = some p → p.merge = false → s.base.rv ≠ p.rvTest → 1 ≤ s.events
-  j6 : ∀ p, s.base.pending = some p → p.fns = [] → s.cycDelays = false → Waiting own s.base → 1 ≤ s.events
-  j7 : ∀ p, s.base.pending = some p → (own ∈ p.view ↔ own ∈ s.base.fins)
+  q : QOk s.queue s.base
+  j1 : s.base.pending = none → Waiting own s.base → s.queue ≠ [] ∨ s.sleeping = true
+  jr : ∀ p, s.base.pending = some p → s.cycViewRv ≤ p.rvTest ∧ p.rvTest ≤ s.base.rv ∧
+        (p.merge = true → p.rvTest = s.cycViewRv) ∧ (s.base.rv = p.rvTest → p.view = s.base.fins)
+  j3 : ∀ p, s.base.pending = some p → s.cycChanges = true → s.base.rv ≠ s.cycViewRv
+  j4 : ∀ p, s.base.pending = some p → s.base.rv = s.cycViewRv →
+        (Fn.block ∈ p.fns → own ∉ p.view) ∧ (Fn.allow ∈ p.fns → own ∈ p.view)
+  j5 : ∀ p, s.base.pending = some p → s.base.rv ≠ s.cycViewRv → s.queue ≠ []
+  j6 : ∀ p, s.base.pending = some p → p.fns = [] → s.cycDelays = false → Waiting own s.base → s.queue ≠ []
 
 theorem linv_init {own : String} {s : LState} (h : LInit s) : LInv own s := by
-  obtain ⟨hb, he, _, _, _, _⟩ := h
+  obtain ⟨hb, hq, _, _, _, _⟩ := h
   obtain ⟨_, _, _, _, _, hm, hp⟩ := hb
   constructor
   · exact hm
-  · intro _ _; left; omega
+  · rw [hq]
+    refine ⟨fun v hv => ?_, fun _ => ⟨snap s.base, by simp, rfl⟩⟩
+    simp only [List.mem_singleton] at hv; subst hv
+    exact ⟨Nat.le_refl _, fun _ => rfl⟩
+  · intro _ _; left; rw [hq]; simp
   all_goals (intro p hp'; rw [hp] at hp'; cases hp')
 
 
-theorem linv_decide {own : String} {s s' : LState} {e : Env} (h : LInv own s)
-    (hs : lstep own s (.base (.decide e)) = some s') : LInv own s' := by
-  obtain ⟨hm, j1, j3, j4, j5, j6, j7⟩ := h
+theorem linv_decide {own : String} {s s' : LState} {e : Env} {v : Snap} (h : LInv own s)
+    (hs : lstep own s (.base (.decide e v)) = some s') : LInv own s' := by
+  obtain ⟨hm, hq, j1, jr, j3, j4, j5, j6⟩ := h
   simp only [lstep] at hs
   split at hs
   · cases hs
-  next hev =>
+  next v' rest hqueue =>
+  split at hs
+  · cases hs
+  next hhead =>
   split at hs
   · cases hs
   next hcons =>
-  cases hb : step own s.base (.decide e) with
+  simp only [bne_iff_ne, ne_eq, Decidable.not_not] at hhead
+  subst hhead
+  cases hb : step own s.base (.decide e v') with
   | none => simp [hb] at hs
   | some b =>
     simp only [hb, Option.map_some, Option.some.injEq] at hs
@@ -98,20 +207,44 @@ theorem linv_decide {own : String} {s s' : LState} {e : Env} (h : LInv own s)
     split at hb
     · cases hb
     next hpend =>
+    split at hb
+    · cases hb
+    next hguard =>
     cases hb
-    have hfns : s.base.mem ++ (decision (inputs own s.base e)).fns = (decision (inputs own s.base e)).fns := by
+    simp only [Bool.or_eq_true, Bool.not_eq_true', decide_eq_false_iff_not, Bool.and_eq_true, beq_iff_eq,
+      bne_iff_ne, ne_eq, not_or, Decidable.not_not, not_and] at hguard
+    have hfns : s.base.mem ++ (decision (inputs own v' s.base e)).fns = (decision (inputs own v' s.base e)).fns := by
       rw [hm]; rfl
-    have harm := arm_bool s.base.matchDel s.base.matchDmn s.base.delDone s.base.dmnLive s.base.dmnForever s.base.marked
-      (decide (own ∈ s.base.fins)) e.consistent s.base.mem.isEmpty e.otherChanging e.otherDelays e.delReset
+    have harm := arm_bool v'.matchDel v'.matchDmn s.base.delDone s.base.dmnLive s.base.dmnForever v'.marked
+      (decide (own ∈ v'.fins)) e.consistent s.base.mem.isEmpty e.otherChanging e.otherDelays e.delReset
     rw [← inputs_eq] at harm
+    obtain ⟨hq1, hq2⟩ := hq
+    -- the rest of the queue is non-empty whenever the body is stale
+    have hstale : s.base.rv ≠ v'.rv → rest ≠ [] := by
+      intro hne hnil
+      obtain ⟨l, hl, hlrv⟩ := hq2 (by rw [hqueue]; simp)
+      rw [hqueue, hnil] at hl
+      simp at hl
+      subst hl
+      exact hne hlrv.symm
     constructor
     · exact hm
+    · refine ⟨fun w hw => ?_, fun hne => ?_⟩
+      · exact hq1 w (by rw [hqueue]; exact List.mem_cons_of_mem _ hw)
+      · obtain ⟨l, hl, hlrv⟩ := hq2 (by rw [hqueue]; simp)
+        refine ⟨l, ?_, hlrv⟩
+        rw [hqueue] at hl
+        cases rest with
+        | nil => exact absurd rfl hne
+        | cons a t => simpa [List.getLast?_cons_cons] using hl
     · intro hp; simp at hp
-    · intro p hp hmerge hcm _
-      simp only [Option.some.injEq] at hp; subst hp
-      simp only at hmerge hcm
-      rw [hmerge] at hcm; cases hcm
     · intro p hp
+      simp only [Option.some.injEq] at hp; subst hp
+      refine ⟨Nat.le_refl _, hguard.1, fun _ => rfl, fun hrv => ?_⟩
+      have := hguard.2 hrv.symm
+      rw [this]; rfl
+    · intro p _ hc; simp at hc
+    · intro p hp _
       simp only [Option.some.injEq] at hp; subst hp
       simp only
       rw [hfns]
@@ -124,464 +257,28 @@ theorem linv_decide {own : String} {s s' : LState} {e : Env} (h : LInv own s)
         rw [allow_mem_fns] at hal
         have := (harm.2 hal).1
         simpa using this
-    · intro p hp _ hrv
-      simp only [Option.some.injEq] at hp; subst hp
-      exact absurd rfl hrv
+    · intro p _ hrv
+      exact hstale hrv
     · intro p hp hnil hdel hw
       simp only [Option.some.injEq] at hp; subst hp
       simp only at hnil hdel hw
-      rw [hfns, fns_nil_iff] at hnil
-      obtain ⟨hw1, hw2, hw3⟩ := hw
-      have hearly := early_of_stuck s.base.matchDel s.base.matchDmn s.base.delDone s.base.dmnLive s.base.dmnForever
-        e.consistent s.base.mem.isEmpty e.otherChanging e.otherDelays e.delReset
-      have hin : inputs own s.base e = inputsB s.base.matchDel s.base.matchDmn s.base.delDone s.base.dmnLive s.base.dmnForever true true
-          e.consistent s.base.mem.isEmpty e.otherChanging e.otherDelays e.delReset := by
-        rw [inputs_eq, hw2]; simp [hw3]
-      rw [hin] at hnil hdel
-      have hc := hearly hnil.1 hnil.2.1 hnil.2.2 hdel
-      rw [hm] at hc
-      simp at hc
-      simp [hc] at hcons
-      show 1 ≤ s.events - 1
-      omega
-    · intro p hp
-      simp only [Option.some.injEq] at hp; subst hp
-      exact Iff.rfl
-
-theorem linv_merge {own : String} {s s' : LState} (h : LInv own s)
-    (hs : lstep own s (.base .mergePatch) = some s') : LInv own s' := by
-  obtain ⟨hm, j1, j3, j4, j5, j6, j7⟩ := h
-  simp only [lstep] at hs
-  cases hb : step own s.base .mergePatch with
-  | none => simp [hb] at hs
-  | some b =>
-    simp only [hb, Option.map_some, Option.some.injEq] at hs
-    subst hs
-    unfold step at hb
-    split at hb
-    · cases hb
-    simp only [stepMerge] at hb
-    split at hb
-    · next p hp =>
-      split at hb
-      · next hmerge =>
-        cases hb
-        have hev : ∀ n, 1 ≤ n → 1 ≤ n + (if s.cycChanges = true then 1 else 0) := by intro n hn; omega
-        constructor
-        · exact hm
-        · intro hp'; simp at hp'
-        · intro p' _ _ _ hcc
-          show 1 ≤ s.events + (if s.cycChanges = true then 1 else 0)
-          simp only at hcc
-          rw [hcc]; simp
-        · intro p' hp'
-          simp only [Option.some.injEq] at hp'; subst hp'
-          simp only
-          obtain ⟨h4b, h4a⟩ := j4 p hp
-          have h7 := j7 p hp
-          exact ⟨fun hbl hin => h4b hbl (h7.mpr hin), fun hal => h7.mp (h4a hal)⟩
-        · intro p' hp' _ hrv
-          simp only [Option.some.injEq] at hp'; subst hp'
-          exact absurd rfl hrv
-        · intro p' hp' hnil hd hw
-          simp only [Option.some.injEq] at hp'; subst hp'
-          exact hev _ (j6 p hp hnil hd hw)
-        · intro p' hp'
-          simp only [Option.some.injEq] at hp'; subst hp'
-          exact Iff.rfl
-      · cases hb
-    · cases hb
-
-theorem linv_touch {own : String} {s s' : LState} (h : LInv own s)
-    (hs : lstep own s .touch = some s') : LInv own s' := by
-  obtain ⟨hm, j1, j3, j4, j5, j6, j7⟩ := h
-  simp only [lstep] at hs
-  split at hs
-  · next hc =>
-    cases hs
-    simp only [Bool.and_eq_true, Option.isNone_iff_eq_none] at hc
-    have hp := hc.1.2
-    constructor
-    · exact hm
-    · intro _ _; left; show 1 ≤ s.events + 1; omega
-    all_goals (intro p hp'; simp only at hp'; rw [hp] at hp'; cases hp')
-  · cases hs
-
-theorem linv_restart {own : String} {s s' : LState} (_h : LInv own s)
-    (hs : lstep own s (.base .restart) = some s') : LInv own s' := by
-  simp only [lstep] at hs
-  cases hb : step own s.base .restart with
-  | none => simp [hb] at hs
-  | some b =>
-    simp only [hb, Option.map_some, Option.some.injEq] at hs
-    subst hs
-    unfold step at hb
-    split at hb
-    · cases hb
-    cases hb
-    constructor
-    · rfl
-    · intro _ _; left; show 1 ≤ 1; omega
-    all_goals (intro p hp'; simp at hp')
-
-
-def Label.isForeign : Label → Bool
-  | .editFins _ | .mark | .toggleDel | .toggleDmn | .handlerFinishes | .daemonExits _ => true
-  | _ => false
-
-theorem foreign_step_frame {own : String} {b0 b : State} {l : Label} (hl : l.isForeign = true)
-    (hs : step own b0 l = some b) :
-    b.pending = b0.pending ∧ b.mem = b0.mem ∧ (b.rv = b0.rv ∨ b.rv = b0.rv + 1) ∧
-    (b.rv = b0.rv → Waiting own b → Waiting own b0) ∧ (own ∈ b.fins ↔ own ∈ b0.fins) := by
-  unfold step at hs
-  split at hs
-  · cases hs
-  cases l with
-  | editFins l' =>
-    simp only [stepEditFins] at hs
-    split at hs
-    · cases hs
-    · next hguard =>
-      split at hs
-      · cases hs; exact ⟨rfl, rfl, Or.inl rfl, fun _ h => h, Iff.rfl⟩
-      · cases hs
-        simp only [bne_iff_ne, ne_eq, Decidable.not_not, decide_eq_decide] at hguard
-        refine ⟨rfl, rfl, Or.inr rfl, fun h _ => ?_, hguard⟩
-        simp at h
-  | mark =>
-    simp only [stepMark] at hs
-    split at hs
-    · cases hs; exact ⟨rfl, rfl, Or.inl rfl, fun _ h => h, Iff.rfl⟩
-    · split at hs
-      · cases hs; refine ⟨rfl, rfl, Or.inl rfl, fun _ h => ?_, Iff.rfl⟩
-        obtain ⟨h1, _, _⟩ := h; simp at h1
-      · cases hs; refine ⟨rfl, rfl, Or.inr rfl, fun h _ => ?_, Iff.rfl⟩
-        simp at h
-  | toggleDel => cases hs; refine ⟨rfl, rfl, Or.inr rfl, fun h _ => ?_, Iff.rfl⟩; simp at h
-  | toggleDmn => cases hs; refine ⟨rfl, rfl, Or.inr rfl, fun h _ => ?_, Iff.rfl⟩; simp at h
-  | handlerFinishes =>
-    simp only at hs
-    split at hs
-    · cases hs; exact ⟨rfl, rfl, Or.inl rfl, fun _ h => h, Iff.rfl⟩
-    · cases hs
-  | daemonExits o =>
-    simp only at hs
-    split at hs
-    · cases hs; exact ⟨rfl, rfl, Or.inl rfl, fun _ h => h, Iff.rfl⟩
-    · cases hs
-  | decide e => cases hl
-  | mergePatch => cases hl
-  | jsonPatch f => cases hl
-  | restart => cases hl
-
-theorem lstep_foreign {own : String} {s s' : LState} {l : Label} (hl : l.isForeign = true)
-    (hs : lstep own s (.base l) = some s') :
-    ∃ b, step own s.base l = some b ∧
-      s' = { s with base := b, events := s.events + (if b.rv != s.base.rv then 1 else 0) } := by
-  have key : ∀ (o : Option State), o = step own s.base l →
-      (o.map fun b => ({ s with base := b, events := s.events + (if b.rv != s.base.rv then 1 else 0) } : LState)) = some s' →
-      ∃ b, step own s.base l = some b ∧
-        s' = { s with base := b, events := s.events + (if b.rv != s.base.rv then 1 else 0) } := by
-    intro o ho hm
-    cases o with
-    | none => simp at hm
-    | some b => simp only [Option.map_some, Option.some.injEq] at hm; exact ⟨b, ho.symm, hm.symm⟩
-  cases l with
-  | editFins l' => exact key _ rfl hs
-  | mark => exact key _ rfl hs
-  | toggleDel => exact key _ rfl hs
-  | toggleDmn => exact key _ rfl hs
-  | handlerFinishes => exact key _ rfl hs
-  | daemonExits o => exact key _ rfl hs
-  | decide e => cases hl
-  | mergePatch => cases hl
-  | jsonPatch f => cases hl
-  | restart => cases hl
-
-theorem linv_foreign {own : String} {s s' : LState} {l : Label} (h : LInv own s) (hl : l.isForeign = true)
-    (hs : lstep own s (.base l) = some s') : LInv own s' := by
-  obtain ⟨hm, j1, j3, j4, j5, j6, j7⟩ := h
-  obtain ⟨b, hb, rfl⟩ := lstep_foreign hl hs
-  obtain ⟨hp, hmem, hrv, hw, hfin⟩ := foreign_step_frame hl hb
-  have hev : ∀ n, 1 ≤ n → 1 ≤ n + (if b.rv != s.base.rv then 1 else 0) := by intro n hn; omega
-  have hbump : b.rv ≠ s.base.rv → 1 ≤ s.events + (if b.rv != s.base.rv then 1 else 0) := by
-    intro hne; simp [hne]
-  constructor
-  · show b.mem = []; rw [hmem]; exact hm
-  · intro hpn hwait
-    show 1 ≤ s.events + _ ∨ s.sleeping = true
-    by_cases hr : b.rv = s.base.rv
-    · rcases j1 (hp ▸ hpn) (hw hr hwait) with h1 | h1
-      · exact Or.inl (hev _ h1)
-      · exact Or.inr h1
-    · exact Or.inl (hbump hr)
-  · intro p hpp hm' hc hcc; exact hev _ (j3 p (hp ▸ hpp) hm' hc hcc)
-  · intro p hpp; exact j4 p (hp ▸ hpp)
-  · intro p hpp hm' hne
-    show 1 ≤ s.events + _
-    by_cases hr : b.rv = s.base.rv
-    · exact hev _ (j5 p (hp ▸ hpp) hm' (by rw [← hr]; exact hne))
-    · exact hbump hr
-  · intro p hpp hnil hd hwait
-    show 1 ≤ s.events + _
-    by_cases hr : b.rv = s.base.rv
-    · exact hev _ (j6 p (hp ▸ hpp) hnil hd (hw hr hwait))
-    · exact hbump hr
-  · intro p hpp
-    exact (j7 p (hp ▸ hpp)).trans hfin.symm
-
-theorem linv_json {own : String} {s s' : LState} {f : Bool} (h : LInv own s) (hg : LGuard (.base (.jsonPatch f)))
-    (hs : lstep own s (.base (.jsonPatch f)) = some s') : LInv own s' := by
-  obtain ⟨hm, j1, j3, j4, j5, j6, j7⟩ := h
-  have hf : f = false := hg
-  subst hf
-  simp only [lstep] at hs
-  cases hb : step own s.base (.jsonPatch false) with
-  | none => simp [hb] at hs
-  | some b =>
-    simp only [hb, Option.map_some, Option.some.injEq] at hs
-    unfold step at hb
-    split at hb
-    · cases hb
-    simp only [stepJson] at hb
-    split at hb
-    · next p hp =>
-      split at hb
-      · cases hb
-      next hmerge =>
-      simp only [Bool.not_eq_true] at hmerge
-      split at hb
-      · -- no ops
-        next hnoop =>
-        cases hb
-        simp only [bne_self_eq_false, Bool.false_eq_true, if_false, hp] at hs
-        subst hs
-        constructor
-        · rfl
-        · intro _ hw
-          show 1 ≤ s.events ∨ sleepsAfter s.cycDelays (changedUnwritten s.cycMerge s.cycChanges p.fns) = true
-          obtain ⟨h4b, h4a⟩ := j4 p hp
-          by_cases hnil : p.fns = []
-          · cases hcd : s.cycDelays
-            · exact Or.inl (j6 p hp hnil hcd hw)
-            · cases hcm : s.cycMerge
-              · right; simp [sleepsAfter, changedUnwritten, hnil]
-              · cases hcc : s.cycChanges
-                · right; simp [sleepsAfter, changedUnwritten]
-                · exact Or.inl (j3 p hp hmerge hcm hcc)
-          · exact absurd hnoop (fns_change own p.fns p.view h4b h4a hnil)
-        all_goals (intro p' hp'; simp at hp')
-      · split at hb
-        · -- rejected
-          next hrej =>
-          cases hb
-          simp only [bne_self_eq_false, Bool.false_eq_true, if_false, hp] at hs
-          subst hs
-          simp only [Bool.false_or, bne_iff_ne, ne_eq] at hrej
-          constructor
-          · exact carry_nil _
-          · intro _ _
-            left
-            show 1 ≤ s.events
-            exact j5 p hp hmerge hrej
-          all_goals (intro p' hp'; simp at hp')
-        · -- accepted
-          cases hb
-          have : (s.base.rv + 1 != s.base.rv) = true := by simp
-          simp only [this, if_true] at hs
-          subst hs
-          constructor
-          · rfl
-          · intro _ _; left; show 1 ≤ s.events + 1; omega
-          all_goals (intro p' hp'; simp at hp')
-    · cases hb
-
-theorem linv_step {own : String} {s s' : LState} {l : LLabel} (h : LInv own s) (hg : LGuard l)
-    (hs : lstep own s l = some s') : LInv own s' := by
-  cases l with
-  | touch => exact linv_touch h hs
-  | base bl =>
-    cases bl with
-    | decide e => exact linv_decide h hs
-    | mergePatch => exact linv_merge h hs
-    | jsonPatch f => exact linv_json h hg hs
-    | restart => exact linv_restart h hs
-    | editFins x => exact linv_foreign h rfl hs
-    | mark => exact linv_foreign h rfl hs
-    | toggleDel => exact linv_foreign h rfl hs
-    | toggleDmn => exact linv_foreign h rfl hs
-    | handlerFinishes => exact linv_foreign h rfl hs
-    | daemonExits o => exact linv_foreign h rfl hs
-
-theorem linv_reach {own : String} {s : LState} (h : LReachG own s) : LInv own s := by
-  induction h with
-  | init hi => exact linv_init hi
-  | step _ hg hs ih => exact linv_step ih hg hs
-
-/-- Every step of the wake-up layer is a step of the base LTS or leaves the base state alone. -/
-theorem lstep_base {own : String} {s s' : LState} {l : LLabel} (hs : lstep own s l = some s') :
-    s'.base = s.base ∨ ∃ bl, step own s.base bl = some s'.base := by
-  cases l with
-  | touch =>
-    simp only [lstep] at hs
-    split at hs
-    · cases hs; exact Or.inl rfl
-    · cases hs
-  | base bl =>
-    right
-    refine ⟨bl, ?_⟩
-    cases bl <;> simp only [lstep] at hs <;>
-      (try (split at hs; · cases hs)) <;> (try (split at hs; · cases hs)) <;>
-      (cases hb : step own s.base _ with
-       | none => simp [hb] at hs
-       | some b =>
-         simp only [hb, Option.map_some, Option.some.injEq] at hs
-         first
-           | (subst hs; rfl)
-           | (split at hs <;> (subst hs; rfl)))
-
-theorem lreach_base {own : String} {s : LState} (h : LReach own s) : Reach own s.base := by
-  induction h with
-  | init hi => exact Reach.init hi.1
-  | step _ hs ih =>
-    rcases lstep_base hs with h | ⟨bl, h⟩
-    · rw [h]; exact ih
-    · exact Reach.step ih h
-
-theorem lreach_of_lreachG {own : String} {s : LState} (h : LReachG own s) : LReach own s := by
-  induction h with
-  | init hi => exact LReach.init hi
-  | step _ _ hs ih => exact LReach.step ih hs
-
-/-! ## Progress from a waiting, settled object -/
-
-/-- The part of the state that decides whether the finalizer is still needed. -/
-def SameReq (a b : State) : Prop :=
-  b.marked = a.marked ∧ b.matchDel = a.matchDel ∧ b.delDone = a.delDone ∧ b.dmnLive = a.dmnLive
-
-theorem afterCycle_released (own : String) (s : State) (e : Env) (hmem : s.mem = [])
-    (hm : s.marked = true) (hown : own ∈ s.fins) (hset : Settled s)
-    (hc : e.consistent = true) (hod : e.otherDelays = false) (hdr : e.delReset = false) :
-    own ∉ (afterCycle own s e).fins ∧ (afterCycle own s e).mem = [] ∧ (afterCycle own s e).pending = none ∧
-    ((afterCycle own s e).fins = [] → (afterCycle own s e).gone = true) := by
-  have hb := release_bool s.matchDel s.matchDmn s.delDone s.dmnForever e.otherChanging hset.1
-  have hin : inputs own s e = inputsB s.matchDel s.matchDmn s.delDone false s.dmnForever true true true true e.otherChanging false false := by
-    rw [inputs_eq, hset.2, hm, hc, hod, hdr, hmem]; simp [hown]
-  obtain ⟨pre, hpre⟩ := fns_snoc_allow _ hb.1 hb.2
-  have htarget : own ∉ applyFns own (s.mem ++ (decision (inputs own s e)).fns) s.fins := by
-    rw [hin, hpre, ← List.append_assoc]
-    intro hmem'
-    have := (own_mem_applyFns_snoc own _ Fn.allow s.fins).mp hmem'
-    cases this
-  have hne : applyFns own (s.mem ++ (decision (inputs own s e)).fns) s.fins ≠ s.fins := by
-    intro heq; rw [heq] at htarget; exact htarget hown
-  have hac : afterCycle own s e =
-      { s with dmnLive := s.dmnLive || (!s.marked && s.matchDmn && !s.dmnForever),
-               delDone := if (decision (inputs own s e)).handlersRun then s.delDone && !e.delReset else s.delDone,
-               fins := applyFns own (s.mem ++ (decision (inputs own s e)).fns) s.fins, rv := s.rv + 1,
-               pending := none, mem := [],
-               gone := s.marked && (applyFns own (s.mem ++ (decision (inputs own s e)).fns) s.fins).isEmpty } := by
-    simp only [afterCycle, hne, if_false]
-  rw [hac]
-  refine ⟨htarget, rfl, rfl, ?_⟩
-  intro hnil
-  simp only at hnil
-  simp [hm, hnil]
-
-/-- One undisturbed cycle at the wake-up level: it needs one queued event. -/
-theorem lcycle_quiet (own : String) (s : LState) (hg : s.base.gone = false) (hp : s.base.pending = none)
-    (hev : 1 ≤ s.events) :
-    ∃ s', lrun own s [.base (.decide quiet), .base (.jsonPatch false)] = some s' ∧
-          s'.base = afterCycle own s.base quiet := by
-  have hrun := cycle_run own s.base quiet hg hp
-  have hl : cycleLabels quiet = [.decide quiet, .jsonPatch false] := rfl
-  rw [hl] at hrun
-  simp only [run] at hrun
-  cases hb1 : step own s.base (.decide quiet) with
-  | none => simp [hb1] at hrun
-  | some b1 =>
-    simp only [hb1, Option.bind_some] at hrun
-    cases hb2 : step own b1 (.jsonPatch false) with
-    | none => simp [hb2] at hrun
-    | some b2 =>
-      simp only [hb2, Option.bind_some, Option.some.injEq] at hrun
-      have hne : ¬ s.events = 0 := by omega
-      simp only [lrun, lstep, hne, if_false, quiet, Bool.not_true, Bool.false_and, Bool.false_eq_true] at *
-      simp only [hb1, Option.map_some, Option.bind_some, hb2]
-      split
-      · exact ⟨_, rfl, hrun⟩
-      · exact ⟨_, rfl, hrun⟩
-
-
-theorem lrun_append (own : String) : ∀ (a b : List LLabel) (s : LState),
-    lrun own s (a ++ b) = (lrun own s a).bind (fun s' => lrun own s' b)
-  | [], b, s => by simp [lrun]
-  | l :: a, b, s => by
-    simp only [List.cons_append, lrun]
-    cases lstep own s l with
-    | none => simp
-    | some s1 => simp [lrun_append own a b s1]
-
-/-- The merge patch of the cycle in flight can always be sent. -/
-theorem lstep_merge_enabled {own : String} {s : LState} {p : Pending} (hg : s.base.gone = false)
-    (hp : s.base.pending = some p) (hm : p.merge = true) :
-    ∃ s1, lstep own s (.base .mergePatch) = some s1 ∧ SameReq s.base s1.base ∧ s1.base.gone = false ∧
-      s1.base.fins = s.base.fins ∧ ∃ p1, s1.base.pending = some p1 ∧ p1.merge = false := by
-  simp only [lstep, step, hg, stepMerge, hp, hm, if_true, Bool.false_eq_true, if_false, Option.map_some]
-  exact ⟨_, rfl, ⟨rfl, rfl, rfl, rfl⟩, rfl, rfl, _, rfl, rfl⟩
-
-/-- … and so can its JSON patch; afterwards no cycle is in flight, and the object is gone only if
-the own finalizer is. -/
-theorem lstep_json_enabled {own : String} {s : LState} {p : Pending} (hg : s.base.gone = false)
-    (hp : s.base.pending = some p) (hm : p.merge = false) :
-    ∃ s2, lstep own s (.base (.jsonPatch false)) = some s2 ∧ SameReq s.base s2.base ∧
-      s2.base.pending = none ∧ (own ∈ s2.base.fins → s2.base.gone = false) := by
-  simp only [lstep, step, hg, stepJson, hp, hm, Bool.false_eq_true, if_false, Bool.false_or]
-  split
-  · simp only [Option.map_some, bne_self_eq_false, Bool.false_eq_true, if_false]
-    exact ⟨_, rfl, ⟨rfl, rfl, rfl, rfl⟩, rfl, fun _ => rfl⟩
-  · split
-    · simp only [Option.map_some, bne_self_eq_false, Bool.false_eq_true, if_false]
-      exact ⟨_, rfl, ⟨rfl, rfl, rfl, rfl⟩, rfl, fun _ => rfl⟩
-    · have : (s.base.rv + 1 != s.base.rv) = true := by simp
-      simp only [Option.map_some, this, if_true]
-      refine ⟨_, rfl, ⟨rfl, rfl, rfl, rfl⟩, rfl, ?_⟩
-      intro hown
-      simp only at hown ⊢
-      cases htn : applyFns own p.fns p.view with
-      | nil => rw [htn] at hown; cases hown
-      | cons a t => simp
-
-theorem settled_of_sameReq {a b : State} (h : SameReq a b) (hs : Settled a) : Settled b := by
-  obtain ⟨_, h2, h3, h4⟩ := h
-  exact ⟨fun hm => by rw [h3]; exact hs.1 (h2 ▸ hm), by rw [h4]; exact hs.2⟩
-
-/-- From an idle worker with a queued event: one quiet cycle releases. -/
-theorem release_with_event (own : String) (s : LState) (hmem : s.base.mem = []) (hp : s.base.pending = none)
-    (hw : Waiting own s.base) (hset : Settled s.base) (hev : 1 ≤ s.events) :
-    ∃ s', lrun own s [.base (.decide quiet), .base (.jsonPatch false)] = some s' ∧ own ∉ s'.base.fins := by
-  obtain ⟨s', hrun, hbase⟩ := lcycle_quiet own s hw.1 hp hev
-  refine ⟨s', hrun, ?_⟩
-  rw [hbase]
-  exact (afterCycle_released own s.base quiet hmem hw.2.1 hw.2.2 hset rfl rfl rfl).1
-
-/-- From an idle worker: the sleep ends with a touch if no event is queued; then one quiet cycle. -/
-theorem release_from_idle (own : String) (s : LState) (h : LInv own s) (hp : s.base.pending = none)
-    (hw : Waiting own s.base) (hset : Settled s.base) :
-    ∃ ls s', ls.length ≤ 3 ∧ (∀ l ∈ ls, LLabel.isOperator l = true) ∧ lrun own s ls = some s' ∧ own ∉ s'.base.fins := by
-  by_cases hev : 1 ≤ s.events
-  · obtain ⟨s', hrun, hrel⟩ := release_with_event own s h.memNil hp hw hset hev
-    exact ⟨_, s', by simp, by simp [LLabel.isOperator], hrun, hrel⟩
-  · have hsl : s.sleeping = true := (h.j1 hp hw).resolve_left hev
-    have hpn : s.base.pending.isNone = true := by rw [hp]; rfl
-    have ht : lstep own s .touch = some { s with sleeping := false, events := s.events + 1 } := by
-      simp [lstep, hsl, hpn, hw.1]
-    obtain ⟨s', hrun, hrel⟩ := release_with_event own { s with sleeping := false, events := s.events + 1 }
-      h.memNil hp hw hset (by show 1 ≤ s.events + 1; omega)
-    refine ⟨[.touch, .base (.decide quiet), .base (.jsonPatch false)], s', by simp, by simp [LLabel.isOperator], ?_, hrel⟩
-    show lrun own s ([LLabel.touch] ++ [.base (.decide quiet), .base (.jsonPatch false)]) = some s'
-    rw [lrun_append]
-    simp only [lrun, ht, Option.bind_some]
-    exact hrun
-
+      by_cases hfresh : s.base.rv = v'.rv
+      · have hv : v' = snap s.base := hguard.2 hfresh.symm
+        rw [hfns, fns_nil_iff] at hnil
+        obtain ⟨hw1, hw2, hw3⟩ := hw
+        have hearly := early_of_stuck v'.matchDel v'.matchDmn s.base.delDone s.base.dmnLive s.base.dmnForever
+          e.consistent s.base.mem.isEmpty e.otherChanging e.otherDelays e.delReset
+        have hin : inputs own v' s.base e = inputsB v'.matchDel v'.matchDmn s.base.delDone s.base.dmnLive s.base.dmnForever true true
+            e.consistent s.base.mem.isEmpty e.otherChanging e.otherDelays e.delReset := by
+          have hmk : v'.marked = true := by rw [hv]; exact hw2
+          have hfi : decide (own ∈ v'.fins) = true := by rw [hv]; exact decide_eq_true hw3
+          rw [inputs_eq, hmk, hfi]
+        rw [hin] at hnil hdel
+        have hc := hearly hnil.1 hnil.2.1 hnil.2.2 hdel
+        rw [hm] at hc
+        simp at hc
+        intro hrest
+        subst hrest
+        simp [hc] at hcons
+      · exact hstale hfresh
 end Kopf.C06
